@@ -1012,6 +1012,10 @@ class TorControlProtocol(LineOnlyReceiver):
 
     def _accumulate_multi_response(self, line):
         "for FSM"
+        if line.startswith('.'):
+            # control-spec 2.3: a data line that begins with a period
+            # was sent with an extra leading period
+            line = line[1:]
         if self._wants_lines():
             self.command[2](line)
 
